@@ -170,6 +170,8 @@ def run(ck):
                   "statement components %s are zipped with response components %s without an enforced length equality: zip truncates, missing responses are not noticed" % (sorted(fa), sorted(fb)), f.loc(bi))
     ck.floor("CMP", "statement/response zips in extract_commit_message", nz, 8)
 
+    enf_module_sweep(ck, crate("rs", CB), re.compile(r"concordium_base::sigma_protocols::"), 1, "sigma_protocols")
+
     # d. V1 framing
     R = CB + "::random_oracle::"
     V1 = "<" + R + "TranscriptProtocolV1 as " + R + "TranscriptProtocol>::"
